@@ -1,12 +1,12 @@
 #![no_main]
-//! C43: (positions, document) decoded with arbitrary::Unstructured: 1-3 cursor positions
+//! C43: (positions, document) decoded with arbitrary::Unstructured: 1-2 cursor positions
 //! (u16 line/character; 0xFFFF stands for u32::MAX), the rest of the bytes is the document.
 use arbitrary::Unstructured;
 use libfuzzer_sys::fuzz_target;
 
 fuzz_target!(|data: &[u8]| {
     let mut u = Unstructured::new(data);
-    let n = u.int_in_range(1u8..=3).unwrap_or(1);
+    let n = u.int_in_range(1u8..=2).unwrap_or(1);
     let mut positions = vec![];
     for _ in 0..n {
         let l: u16 = u.arbitrary().unwrap_or(0);
